@@ -46,7 +46,7 @@ def run(chk):
         if min(abs(hn - near), abs(bn - near)) <= 2:
             chk.nontriv(c)
         # model-independent monitors restating the property
-        if "PANIC" in a or "CRASH" in a or "TIMEOUT" in a:
+        if "PANIC" in a or "CRASH" in a or "TIMEOUT" in a or a.startswith("HANG"):
             chk.monitor_fail("codec panicked / crashed", dict(case=c, impl=a))
             continue
         if "!content" in a:
